@@ -23,7 +23,7 @@ UNKNOWN = ["nope", "Temp", "temp ", "Y(XX)"]
 
 @st.composite
 def cases(draw, tier="quick"):
-    spec = draw(plotgen.plot_specs(thin=True, many=True, max_cells=3000 if tier == "quick" else 12000, max_fields=6))
+    spec = draw(plotgen.plot_specs(thin=True, many=True, level_prefix=True, max_cells=3000 if tier == "quick" else 12000, max_fields=6))
     nf = len(spec["fields"])
     if draw(st.sampled_from(["list"] * 9 + ["all"])) == "all":
         vars_ = "all"
@@ -45,7 +45,12 @@ def check_case(case, ctx):
     from amr_kitchen.colander import Colander
     root = ctx.fresh()
     plot = plotgen.Plot(case["spec"])
-    plotgen.write(plot, "src")
+    from ..harness import VIAS, place_plotfile
+    import zlib as _z, json as _j
+    via = VIAS[_z.crc32(_j.dumps(case["spec"]["mesh"], sort_keys=True).encode()) % len(VIAS)]
+    src = place_plotfile(lambda pth: plotgen.write(plot, pth), via)
+    if via:
+        ctx.label("path:" + via)
     names = plot.fields
     nf = plot.nf
     if case["vars"] == "all":
@@ -67,15 +72,15 @@ def check_case(case, ctx):
     try:
         if case.get("how") == "cli":
             import amr_kitchen.colander.cli as cli
-            argv = ["colander", "src", "-v"] + variables + (["-l", str(limit)] if limit is not None else []) + ["-o", out]
+            argv = ["colander", src, "-v"] + variables + (["-l", str(limit)] if limit is not None else []) + ["-o", out]
             common.run_main(cli.main, argv)
         else:
-            c = qcall(Colander, "src", limit_level=limit, output=out, variables=variables)
+            c = qcall(Colander, src, limit_level=limit, output=out, variables=variables)
             qcall(c.strain)
     except Exception as e:
         return [f"colander raised {type(e).__name__}: {e} (via {case.get('how', 'api')})"]
     v += common.taste_accepts("out")
-    a = refread.read_plotfile("src")
+    a = refread.read_plotfile(src)
     common.check_spec_roundtrip(plot, a)      # harness self-check: reference reader agrees with the spec
     v += common.compare_output_to_model(a, "out", kept, fi, L)
     return v
